@@ -94,19 +94,26 @@ func buildOverlay(lf *loadFlags, rels []string) (map[string][]byte, error) {
 		return nil, err
 	}
 	ov[filepath.Join(lf.repo, "internal", "zzvrt", "vrt.go")] = vrtSrc
-	for _, rel := range rels {
-		dir := filepath.Join(lf.harnessDir, rel)
-		files, _ := filepath.Glob(filepath.Join(dir, "*.go"))
-		for _, f := range files {
-			if strings.HasSuffix(f, "_test.go") {
-				continue
-			}
-			b, err := os.ReadFile(f)
-			if err != nil {
-				return nil, err
-			}
-			ov[filepath.Join(lf.repo, rel, "zz_verif_"+filepath.Base(f))] = b
+	_ = rels
+	// every harness file is overlaid (harnesses of one package may use exported
+	// helpers of another package's harness file)
+	err = filepath.Walk(lf.harnessDir, func(p string, info os.FileInfo, err error) error {
+		if err != nil || info.IsDir() || !strings.HasSuffix(p, ".go") || strings.HasSuffix(p, "_test.go") {
+			return nil
 		}
+		rel, _ := filepath.Rel(lf.harnessDir, filepath.Dir(p))
+		if rel == "vrt" || rel == "." || strings.HasPrefix(rel, "_") {
+			return nil
+		}
+		b, err := os.ReadFile(p)
+		if err != nil {
+			return err
+		}
+		ov[filepath.Join(lf.repo, rel, "zz_verif_"+filepath.Base(p))] = b
+		return nil
+	})
+	if err != nil {
+		return nil, err
 	}
 	return ov, nil
 }
